@@ -5,6 +5,9 @@ verus! {
 //@include prelude/float.rs
 //@include prelude/rng.rs
 
+// loops are verified in the context of their function (facts about values bound before a loop need no restating in
+// its invariant: hoisting a sub-expression out of a loop must not break the proof)
+#[verifier::loop_isolation(false)]
 pub mod unit_categorical {
     use vstd::prelude::*;
     use vstd::std_specs::iter::IteratorSpec;
@@ -114,6 +117,9 @@ pub mod unit_categorical {
         //@body id=cat_sample file=src/distributions.rs impl_self=Categorical impl_trait=Discrete name=sample props=C16
         //@sig fn sample (& mut self) -> usize
         //@rules R-enum
+        //@rename r match="^let (\\w+) : T = self \\. rng \\. random"
+        //@rename cum match="^let mut (\\w+) : T = T :: zero"
+        //@rename k match="^let mut (\\w+) = self \\. probs \\. len"
         //@anchor fnd scope=fn pos=before match="for \( ?i|for i in"
         //@| let ghost mut found = false;
         //@| let ghost p0 = self.probs@;
